@@ -54,10 +54,15 @@ func genConfigTable(args []string) {
 
 // ---- terms
 
+// cfgTerm encodes a config as its difference from defaultConfig(): [field index; get(field)]
+// for every field whose value is not the default (string literals are what makes Coq slow).
 func cfgTerm(c driver.VerifConfig) Term {
-	var l []Term
-	for _, p := range driver.VerifConfigDump(c) {
-		l = append(l, L(S(p[0]), S(p[1])))
+	l := []Term{}
+	def := driver.VerifConfigDump(driver.VerifDefaultConfig())
+	for i, p := range driver.VerifConfigDump(c) {
+		if p[1] != def[i][1] {
+			l = append(l, L(ZI(i), S(p[1])))
+		}
 	}
 	return L(l...)
 }
@@ -83,13 +88,15 @@ func pfTable(strs map[string]bool) Term {
 		ks = append(ks, k)
 	}
 	sort.Strings(ks)
-	var l []Term
+	l := []Term{}
 	for _, k := range ks {
 		v, err := strconv.ParseFloat(k, 64)
-		if err != nil {
-			l = append(l, L(S(k), L()))
-		} else {
-			l = append(l, L(S(k), L(S(fmt.Sprint(v)))))
+		switch {
+		case err != nil: // absent from the table = parse error
+		case fmt.Sprint(v) == k:
+			l = append(l, L(S(k)))
+		default:
+			l = append(l, L(S(k), S(fmt.Sprint(v))))
 		}
 	}
 	return L(l...)
@@ -102,9 +109,13 @@ func collect(strs map[string]bool, q url.Values) {
 		}
 	}
 }
+// collectCfg adds the values of the float fields (the only ones the model asks the oracle about)
 func collectCfg(strs map[string]bool, c driver.VerifConfig) {
-	for _, p := range driver.VerifConfigDump(c) {
-		strs[p[1]] = true
+	fl := driver.VerifConfigFields()
+	for i, p := range driver.VerifConfigDump(c) {
+		if fl[i].Kind == "float64" {
+			strs[p[1]] = true
+		}
 	}
 }
 
